@@ -37,6 +37,7 @@ def setup(ctx):
     ctx.require("monitor", "upload_entries", 10)
     ctx.require("monitor", "incomplete_lines_checked", 50)
     ctx.require("monitor", "after_refusal_connections", 100)
+    ctx.require("monitor", "url_forms_checked", 300)
 
 
 def run_line(data: bytes, uploads: bool, cuts=()):
@@ -62,7 +63,7 @@ def run_line(data: bytes, uploads: bool, cuts=()):
             "stream": stream,
             "status": int(stream[:2]) if stream[:2].isdigit() else None,
             "handler": [
-                {"host": r.hostname, "port": r.port, "path": r.path, "query": r.query, "raw": r.raw_url}
+                {"host": r.hostname, "port": r.port, "path": r.path, "query": r.query, "raw": r.raw_url, "normalized": getattr(r, "normalized_url", None)}
                 for r in h.calls
             ],
             "mw": list(mw.calls),
@@ -161,6 +162,22 @@ def judge(ctx, data: bytes, label: str, uploads: bool, cuts=()):
                     bad.append("content")
             if not is_titan and not obs["mw"]:
                 bad.append("middleware-not-consulted")
+            # the URL forms the request is passed on in (the handler's normalized_url, the URL the middleware chain is
+            # given) name the same host and port
+            forms = ([("normalized-url", c.get("normalized"))] if not is_titan else []) + [("middleware-url", m[0]) for m in obs["mw"][:1]]
+            for fname, form in forms:
+                if not isinstance(form, str):
+                    continue
+                ctx.count("monitor", "url_forms_checked")
+                _, auth, _, _, _ = uri.split_rfc3986(form)
+                fhost, fport = auth or "", None
+                if auth and not auth.endswith("]") and ":" in auth.rsplit("]", 1)[-1]:
+                    fhost, _, ptxt = auth.rpartition(":")
+                    fport = int(ptxt) if ptxt.isdigit() else (None if ptxt == "" else ptxt)
+                if not host_equal(fhost[1:-1] if fhost.startswith("[") and fhost.endswith("]") else fhost, info["host"]):
+                    bad.append(f"host-in-{fname}")
+                elif (1965 if fport is None else fport) != info["port"]:
+                    bad.append(f"port-in-{fname}")
             if bad:
                 ctx.violation(f"valid-altered:{'+'.join(bad)}:host={kind}", f"must-accept line reached the {who} with altered {bad}", wit)
         ctx.count("outcome", f"accept:{kind}:{'titan' if is_titan else 'gemini'}")
